@@ -1557,4 +1557,65 @@ theorem mergeContainersF_inv {o : ListStrategy} {f : Nat} {h h' : Heap} {c1 c2 r
     exact ⟨ka, kb, h1, h2, hm⟩
   · cases hm
 
+/-! ### fuel = heap size is enough on a closed acyclic heap
+
+  Any rank function can be compressed to one below the heap size: the number of in-range
+  addresses of strictly smaller rank.  Hence `abs`, `clone`, `mergeContainers` (which run with
+  fuel `h.size`) are defined on every closed acyclic heap. -/
+
+theorem countP_lt_of_imp {α : Type} {p q : α → Bool} :
+    ∀ {l : List α}, (∀ x ∈ l, p x = true → q x = true) → (∃ x ∈ l, q x = true ∧ p x = false) →
+      l.countP p < l.countP q
+  | [], _, ⟨x, hx, _⟩ => by cases hx
+  | y :: l, himp, ⟨x, hx, hq, hp⟩ => by
+    have himp' : ∀ z ∈ l, p z = true → q z = true := fun z hz => himp z (List.mem_cons_of_mem _ hz)
+    have hmono := List.countP_mono_left himp'
+    rcases List.mem_cons.mp hx with rfl | hx
+    · rw [List.countP_cons_of_pos hq, List.countP_cons_of_neg (by simp [hp])]
+      exact Nat.lt_succ_of_le hmono
+    · have ih := countP_lt_of_imp himp' ⟨x, hx, hq, hp⟩
+      by_cases hpy : p y = true
+      · rw [List.countP_cons_of_pos hpy, List.countP_cons_of_pos (himp y (List.mem_cons_self ..) hpy)]
+        exact Nat.succ_lt_succ ih
+      · rw [List.countP_cons_of_neg hpy]
+        by_cases hqy : q y = true
+        · rw [List.countP_cons_of_pos hqy]; exact Nat.lt_succ_of_lt ih
+        · rw [List.countP_cons_of_neg hqy]; exact ih
+
+/-- the compressed rank: how many in-range addresses have a strictly smaller rank -/
+def crank (h : Heap) (rank : Addr → Nat) (a : Addr) : Nat :=
+  (List.range h.size).countP (fun b => decide (rank b < rank a))
+
+theorem crank_lt_size {h : Heap} (rank : Addr → Nat) {a : Addr} (ha : a < h.size) :
+    crank h rank a < h.size := by
+  have : (List.range h.size).countP (fun b => decide (rank b < rank a)) <
+      (List.range h.size).countP (fun _ => true) :=
+    countP_lt_of_imp (fun _ _ _ => rfl) ⟨a, List.mem_range.mpr ha, rfl, by simp⟩
+  have hlen : (List.range h.size).countP (fun _ => true) ≤ (List.range h.size).length :=
+    List.countP_le_length
+  rw [List.length_range] at hlen
+  exact Nat.lt_of_lt_of_le this hlen
+
+theorem rankedBy_crank {h : Heap} (hc : h.Closed) {rank : Addr → Nat} (hr : h.RankedBy rank) :
+    h.RankedBy (crank h rank) := by
+  intro a c hg k hk
+  have hlt := hr a c hg k hk
+  have hkin := hc a c hg k hk
+  refine countP_lt_of_imp ?_ ⟨k, List.mem_range.mpr hkin, ?_, ?_⟩
+  · intro b _ hb
+    exact decide_eq_true (Nat.lt_trans (of_decide_eq_true hb) hlt)
+  · exact decide_eq_true hlt
+  · exact decide_eq_false (Nat.lt_irrefl _)
+
+/-- on a closed acyclic heap every in-range root has a defined abstraction with fuel `h.size` -/
+theorem abs_defined {h : Heap} (hc : h.Closed) (ha : h.Acyclic) {a : Addr} (hlt : a < h.size) :
+    ∃ n, abs h a = some n := by
+  obtain ⟨rank, hr⟩ := ha
+  have hpos : 0 < h.size := Nat.lt_of_le_of_lt (Nat.zero_le _) hlt
+  obtain ⟨d, hd⟩ : ∃ d, h.size = d + 1 := ⟨h.size - 1, by omega⟩
+  have := absH_of_ranked hc (rankedBy_crank hc hr) d a
+    (Nat.le_of_lt_succ (by have := crank_lt_size (h := h) rank hlt; rw [hd] at this; exact this)) hlt
+  unfold abs
+  rw [hd]; exact this
+
 end Ytk.Heap
